@@ -15,6 +15,20 @@ from .repo import strip_docstring
 
 class LoopSpec(object):
     """invariant for one loop (keyed by ordinal in the function under contract)"""
+    kind = None          # ast.While / ast.For: the kind of loop the invariant was written for (None: any)
+    iterates = None      # for `for` loops: a word the iterated expression must mention (e.g. "modules"); None: any
+
+    def accepts(self, node):
+        if self.kind is not None and not isinstance(node, self.kind):
+            return False
+        if self.iterates is not None and isinstance(node, ast.For):
+            words = {n.id for n in ast.walk(node.iter) if isinstance(n, ast.Name)} | {
+                n.attr for n in ast.walk(node.iter) if isinstance(n, ast.Attribute)}
+            if self.iterates not in words:
+                return False
+        if isinstance(node, ast.For) and node.orelse:
+            return False
+        return True
 
     def invariant(self, ex, st, ctx):
         return []
